@@ -871,6 +871,10 @@ func (g *PlanGen) timeValue(pf *ref.PField, compressed bool, offset byte) (uint6
 	switch {
 	case rng.Chance(8, 100): // seconds since power-on
 		return uint64(1 + rng.Intn(1<<20)), true
+	case (!has || refv < 0x10000000) && rng.Chance(1, 4):
+		// a reference a few seconds below the system-time marker 0x10000000: compressed headers
+		// that follow carry it across the marker, from "seconds since power-on" to a date
+		return uint64(0x10000000 - 1 - rng.Intn(40)), true
 	case !has || refv < 0x10000000:
 		return uint64(0x30000000 + rng.Intn(0x10000000)), true
 	default:
